@@ -1,12 +1,111 @@
 (* C16 -- queues lose nothing, duplicate nothing and respect their capacity.
-   Only statements here; proofs live in Proofs/QueueProofs.v. *)
+   Only statements here; proofs live in Proofs/QueueProofs.v.
+
+   Reading guide.  [P_queue.code] is the table of QueueProg programs compiled on THIS run from
+   billiard/queues.py (Queue.put/get, JoinableQueue.put/task_done/join, SimpleQueue.put/get) and
+   billiard/synchronize.py; p_feed (Queue._feed) is a hand translation emitted only while the
+   source text of _feed is the expected one.  [QReach M g]: g is reachable from the initial world
+   of a queue of capacity M by ANY number of processes -- each a main thread running any script
+   of put / get / task_done / join calls plus its feeder thread -- under ANY schedule (timed
+   acquires and polls may give up at any step), counters below SEM_VALUE_MAX.
+   Ghost logs: plog p = messages process p appended to its buffer (= accepted by its puts), in
+   order; slog p = messages its feeder wrote to the pipe, in order; sendlog / getlog = all
+   messages written to / read from the pipe, in order.  Semaphores: 0 _sem, 1 _rlock, 2 _wlock,
+   nls p = lock of process p's _notempty.  qt_tr = 1 for a thread holding a capacity token for
+   a message that is neither buffered nor in the pipe (put before its append, feeder between
+   pop and send, get between receive and the release of _sem). *)
 From Coq Require Import ZArith List Bool.
-From BV Require Import Model.SemProg Model.QueueProg Model.QueueCode Proofs.QueueProofs.
+From BV Require Import Model.SemProg Model.QueueProg Model.QueueCode Proofs.SemProgProofs Proofs.QueueInvProofs Proofs.QueueProofs.
 From BV Require Gen.P_queue.
 Import ListNotations.
 Open Scope Z_scope.
 
-(* the programs compiled from billiard/queues.py on this run are the model's programs *)
+(* ---- tie *)
 Theorem C16_code_is_model : forall c, P_queue.code c = QueueCode.code c.
 Proof. exact gen_qcode_eq. Qed.
 Print Assumptions C16_code_is_model.
+
+Theorem C16_world_is_model : forall m, P_queue.queue_sems m = QueueCode.queue_sems m.
+Proof. exact gen_qworld_eq. Qed.
+Print Assumptions C16_world_is_model.
+
+(* ---- the invariant holds in every reachable state and is kept by every step (so no release
+   of the capacity semaphore or of a lock ever raises) *)
+Theorem C16_invariant : forall M g, QReach M g -> QInv M g.
+Proof. exact qreach_inv. Qed.
+Print Assumptions C16_invariant.
+
+Theorem C16_step : forall M g i go g' e, QReach M g -> qsmall g ->
+    qstep P_queue.code g i go = Some (g', e) -> QInv M g'.
+Proof. exact G_queue_step. Qed.
+Print Assumptions C16_step.
+
+(* capacity accounting: sem + buffered + in pipe + in transit = maxsize; hence at most maxsize
+   items are ever waiting *)
+Theorem C16_capacity : forall M g, QReach M g ->
+    qv 0 g + sumz blen (procs g) + Z.of_nat (length (pipe g)) + sumz qt_tr (qthr g) = M /\
+    0 <= qv 0 g /\
+    sumz blen (procs g) + Z.of_nat (length (pipe g)) <= M.
+Proof. exact G_queue_capacity. Qed.
+Print Assumptions C16_capacity.
+
+(* order: per producer, appended = sent ++ held by the feeder ++ buffered (in order); the pipe
+   is FIFO; the send log is a merge of the producers' send logs *)
+Theorem C16_fifo : forall M g, QReach M g ->
+    (forall p, plog (nth p (procs g) dps) =
+               slog (nth p (procs g) dps) ++ ftr (nth (2 * p + 1) (qthr g) dqt) ++ buf (nth p (procs g) dps)) /\
+    sendlog g = getlog g ++ pipe g /\
+    (forall m, zcnt m (sendlog g) = sumz (fun ps => zcnt m (slog ps)) (procs g)).
+Proof. exact G_queue_fifo. Qed.
+Print Assumptions C16_fifo.
+
+(* no loss, no duplication: each message, with its multiplicity among the accepted puts, is
+   exactly: received + in the pipe + held by a feeder + buffered *)
+Theorem C16_no_loss_no_dup : forall M g m, QReach M g ->
+    sumz (fun ps => zcnt m (plog ps)) (procs g) =
+    zcnt m (getlog g) + zcnt m (pipe g)
+    + psum (fun p => zcnt m (ftr (nth (2 * p + 1) (qthr g) dqt))) (length (procs g))
+    + sumz (fun ps => zcnt m (buf ps)) (procs g).
+Proof. exact G_queue_no_loss_no_dup. Qed.
+Print Assumptions C16_no_loss_no_dup.
+
+(* reader lock, writer lock and each process's _notempty lock have one holder *)
+Theorem C16_locks : forall M g, QReach M g ->
+    qv 1 g + sumz qt_rl (qthr g) = 1 /\ qv 2 g + sumz qt_wl (qthr g) = 1 /\
+    forall p, (p < length (procs g))%nat -> qv (nls p) g + sumz (qt_nl p) (qthr g) = 1.
+Proof. exact G_queue_locks. Qed.
+Print Assumptions C16_locks.
+
+(* Full: on the scheduler choice `go` a put's capacity acquire fails exactly when the
+   semaphore is 0 (with `timeout` a timed put may give up at its deadline) *)
+Theorem C16_full_only_when_zero : forall M g i t g' e, QReach M g ->
+    nth_error (qthr g) i = Some t -> qfin t = false -> qfeeder t = false ->
+    (qcid t = 0%nat \/ qcid t = 3%nat) -> qpc t = 0%nat ->
+    qstep P_queue.code g i true = Some (g', e) ->
+    (snd e = 0 -> qv 0 g = 0) /\ (snd e = 1 -> 0 < qv 0 g).
+Proof. exact G_full_only_when_zero. Qed.
+Print Assumptions C16_full_only_when_zero.
+
+(* Empty: a non-blocking get finds nothing exactly when the pipe is empty *)
+Theorem C16_empty_only_when_nothing : forall g i t g' e,
+    nth_error (qthr g) i = Some t -> qfin t = false -> qfeeder t = false ->
+    qcid t = 1%nat -> qpc t = 17%nat ->
+    qstep P_queue.code g i true = Some (g', e) ->
+    (snd e = 0 <-> pipe g = []).
+Proof. exact G_empty_only_when_nothing. Qed.
+Print Assumptions C16_empty_only_when_nothing.
+
+(* a put appends exactly the message it was given *)
+Theorem C16_put_appends_its_argument : forall M g t, QReach M g -> In t (qthr g) ->
+    qfeeder t = false -> qfin t = false -> (qcid t = 0%nat \/ qcid t = 3%nat) ->
+    (qpc t = 0%nat \/ qpc t = 3%nat \/ qpc t = 6%nat) -> r2 (qrg t) = a2_of (qcur t).
+Proof. exact G_put_appends_its_argument. Qed.
+Print Assumptions C16_put_appends_its_argument.
+
+(* non-vacuity: capacity 1, two producers and a consumer; message 11 has gone through the
+   pipe and is held by the consumer (in transit), the second producer is blocked on the full
+   queue *)
+Example C16_witness :
+  QReach 1 qex_state /\ qv 0 qex_state = 0 /\ getlog qex_state = [11] /\ sendlog qex_state = [11] /\
+  sumz qt_tr (qthr qex_state) = 1 /\ pipe qex_state = [].
+Proof. exact qex_witness. Qed.
